@@ -1144,11 +1144,14 @@ impl StorageEngine {
                 Value::List(list) => {
                     let len = list.len() as isize;
                     
-                    let start = if start < 0 { (len + start).max(0) } else { start } as usize;
-                    let stop = if stop < 0 { (len + stop).max(0) } else { stop } as usize;
+                    let start = if start < 0 { (len + start).max(0) } else { start };
+                    // A negative stop that reaches before the first element selects nothing
+                    // (it must not be clamped to index 0)
+                    let stop = if stop < 0 { len + stop } else { stop };
                     
                     let mut result = Vec::new();
                     for (i, item) in list.iter().enumerate() {
+                        let i = i as isize;
                         if i >= start && i <= stop {
                             result.push(item.clone());
                         }
@@ -1227,11 +1230,14 @@ impl StorageEngine {
                 Value::List(list) => {
                     let len = list.len() as isize;
                     
-                    let start = if start < 0 { (len + start).max(0) } else { start } as usize;
-                    let stop = if stop < 0 { (len + stop).max(0) } else { stop } as usize;
+                    let start = if start < 0 { (len + start).max(0) } else { start };
+                    // A negative stop that reaches before the first element keeps nothing
+                    // (it must not be clamped to index 0)
+                    let stop = if stop < 0 { len + stop } else { stop };
                     
                     let mut new_list = VecDeque::new();
                     for (i, item) in list.iter().enumerate() {
+                        let i = i as isize;
                         if i >= start && i <= stop {
                             new_list.push_back(item.clone());
                         }
